@@ -15,7 +15,7 @@ import Aegean.Generated.C09
 
 open Aegean.Model.C09 Real InnerProductGeometry
 
--- `<;> ring` after `simp only` is deliberate: it only runs when a harmless rewrite of the source
+-- `<;> close_arith` after `simp only` is deliberate: it only runs when a harmless rewrite of the source
 -- leaves an arithmetic goal behind
 set_option linter.unusedTactic false
 set_option linter.unreachableTactic false
@@ -23,28 +23,33 @@ set_option linter.unreachableTactic false
 namespace Aegean.C09
 open Gen.C09
 
+/-- closes what a harmless rewrite of the source may leave behind (reordered terms, `0.5*np.pi`, …) -/
+macro "close_arith" : tactic =>
+  `(tactic| first | ring | (norm_num; ring) | norm_num | (field_simp; ring))
+
 /-! ### the regenerated leaves -/
 
 theorem theta_eq (dec : ℝ) : sky2angTheta dec = π / 2 - dec := by
-  simp only [sky2angTheta, R.real_pi, R.real_ofNat, Nat.cast_ofNat] <;> ring
+  simp only [sky2angTheta, R.real_pi, R.real_ofNat, R.real_ofSci, R.real_radians, R.real_degrees, Nat.cast_ofNat] <;> close_arith
 
 theorem scale_false (x : ℝ) : skyWithinScale false x = x := by
   simp [skyWithinScale]
 
 theorem scale_true (x : ℝ) : skyWithinScale true x = x * (π / 180) := by
-  simp only [skyWithinScale, R.real_radians, if_true] <;> ring
+  simp only [skyWithinScale, R.real_pi, R.real_ofNat, R.real_ofSci, R.real_radians, R.real_degrees, Nat.cast_ofNat, if_true] <;> close_arith
 
 theorem raOf_false (phi : ℝ) : vec2skyRa false phi = phi := by
   simp [vec2skyRa]
 
 theorem raOf_true (phi : ℝ) : vec2skyRa true phi = phi * (180 / π) := by
-  simp only [vec2skyRa, R.real_degrees, if_true] <;> ring
+  simp only [vec2skyRa, R.real_pi, R.real_ofNat, R.real_ofSci, R.real_radians, R.real_degrees, Nat.cast_ofNat, if_true] <;> close_arith
 
 theorem decOf_false (theta : ℝ) : vec2skyDec false theta = π / 2 - theta := by
-  simp only [vec2skyDec, R.real_pi, R.real_ofNat, Nat.cast_ofNat, Bool.false_eq_true, if_false] <;> ring
+  simp only [vec2skyDec, R.real_pi, R.real_ofNat, R.real_ofSci, R.real_radians, R.real_degrees, Nat.cast_ofNat,
+    Bool.false_eq_true, if_false] <;> close_arith
 
 theorem decOf_true (theta : ℝ) : vec2skyDec true theta = (π / 2 - theta) * (180 / π) := by
-  simp only [vec2skyDec, R.real_degrees, R.real_pi, R.real_ofNat, Nat.cast_ofNat, if_true] <;> ring
+  simp only [vec2skyDec, R.real_pi, R.real_ofNat, R.real_ofSci, R.real_radians, R.real_degrees, Nat.cast_ofNat, if_true] <;> close_arith
 
 theorem sky2vec_eq_skyvec (ra dec : ℝ) : sky2vec sky2angTheta ra dec = skyvec ra dec := by
   simp only [sky2vec, sky2ang, theta_eq, ang2vec_colat, skyvec]
